@@ -322,6 +322,19 @@ def request(c, D):
         if "include_paths" in o:
             oo["include_paths"] = [os.path.join(D, "inc" + p) for p in o["include_paths"]]
         props["okl"] = oo
+    # route: the same effective configuration can reach the build through the call's properties (top), through the call's
+    # per-mode override section modes/<Mode>/..., or through the device's kernel properties
+    route = c.get("route", "top")
+    if route != "top":
+        moved = {}
+        for f in ("includes", "headers", "compiler", "compiler_language", "compiler_env_script", "okl") + tuple(FLAG_FIELDS):
+            if f in props:
+                moved[f] = props.pop(f)
+        if moved:
+            if route == "mode":
+                props["modes"] = {c["mode"]: moved}
+            else:
+                req["device"] = {"kernel": moved}
     req["props"] = props
     return req
 
@@ -485,7 +498,8 @@ def strategy(max_pair_muts=2):
 
     @st.composite
     def chains(draw):
-        c0 = {"mode": draw(st.sampled_from(["Serial", "OpenMP"])), "kind": draw(st.sampled_from(["file", "string"]))}
+        c0 = {"mode": draw(st.sampled_from(["Serial", "OpenMP"])), "kind": draw(st.sampled_from(["file", "string"])),
+              "route": draw(st.sampled_from(["top", "top", "mode", "device"]))}
         for f in FIELDS:
             c0[f] = copy.deepcopy(draw(st.sampled_from(ALPHABET[f])))
         cfgs, muts = [repair(c0)], []
